@@ -393,6 +393,11 @@ def r6_verdict_arms(ctx):
     chk(ODE, "get_odesys", "if unit_registry is None: p_units = None else:", "units-only-with-registry", "unit handling is installed exactly when a registry is given")
     chk(ODE, "get_odesys.post_processor", "if output_time_unit is not None: time = rescale(time, output_time_unit)", "time-rescaled-on-request", "output time is rescaled exactly when a unit is requested")
     chk(ODE, "get_odesys.post_processor", "if output_conc_unit is not None: conc = rescale(conc, output_conc_unit)", "conc-rescaled-on-request", "output concentrations are rescaled exactly when a unit is requested")
+    chk(ODE, "get_odesys", "if unit_registry is None: const = magnitude(const) else: const = unitless_in_registry(const, unit_registry)", "constants-in-registry-units",
+        "an inlined physical constant is expressed in the registry's units when there is a registry (its SI magnitude only without one)")
+    chk(ODE, "get_odesys", "if unit_registry is not None: sv = unitless_in_registry(sv, unit_registry)", "substituted-values-in-registry-units", "a substituted plain value is expressed in the registry's units")
+    chk(ODE, "get_odesys._reg_unique_unit", "if unit_registry is None: return", "no-units-without-registry", "parameter units are recorded only with a registry")
+    chk(ODE, "get_odesys._get_arg_dim", "if unit_registry is None: return None else: return expr.args_dimensionality(reaction=rxn)", "arg-dims-of-own-reaction", "argument dimensions are asked for the reaction at hand")
     q = "_validate"
     chk(ODE, q, "to_unitless(result, u.molar / u.second)", "term-is-conc-per-time", "every term of a rate must be strippable as concentration/time")
     chk(ODE, q, "if expr == 0: rate = 0 * u.molar / u.second", "zero-rate-has-units", "a vanishing rate is 0 concentration/time")
@@ -408,7 +413,7 @@ RULES = [
     Rule("C10-R2", r2_acceptance_dimension, 10, "acceptance-test dimension and propagation"),
     Rule("C10-R3", r3_pre_post_pairing, 19, "pre/post unit pairing in get_odesys and the alternative builder"),
     Rule("C10-R4", r4_dedimensionalisation, 8, "dedimensionalisation pairing"),
-    Rule("C10-R6", r6_verdict_arms, 21, "verdict arms of the acceptance tests; dedimensionalisation arms; hand-evaluated rate accumulation"),
+    Rule("C10-R6", r6_verdict_arms, 25, "verdict arms of the acceptance tests; dedimensionalisation arms; hand-evaluated rate accumulation"),
     Rule("C10-R5", r5_unique_units, 4, "unique-key parameter units are the full registry product"),
 ]
 
